@@ -155,4 +155,26 @@ var configs = map[string]propCfg{
 			"oracle: any exit status but no crash trace and completion within 150 s (re-confirmed once). Non-trivial = invalid configuration with >= 2 packages (re-entry after the first error), or any broken package; distinct by case.",
 		Assumptions: []string{"an unparsable flag value rejected by the flag package itself counts as clean failure"},
 	},
+	"C15": {
+		Quick:    tierCfg{Shards: 8, Checks: 300, Limit: qLimit},
+		Thorough: tierCfg{Shards: 16, Checks: 6000, Limit: tLimit},
+		Floor:    20,
+		Rule: "programs as in C01 (kernels trigger every rule that names a std API or literal syntax: strings.Cut, Time.UnixMilli/UnixMicro on values and pointers, sync.Map.LoadAndDelete, 0o literals, ...), analysed with a drawn target version 1.13 .. 1.25 in both spellings (1.N, go1.N), with no version and with 1.99. " +
+			"Oracle: every std function / method / literal syntax mentioned in a message or fix but absent from the analysed source is looked up in an index built from GOROOT/api/go1.*.txt on every run (about 2k function names, 1k method names; methods by minimum over receivers) and must not be newer than the target; " +
+			"diagnostics with no version equal those with 1.99; the parser/comparator is checked on the full grid 1.0..1.30 x 1.0..1.30 (numeric comparison, go-prefix equivalence). " +
+			"Non-trivial = a program that provokes a recommendation of an API newer than go1.13, evaluated at a target below that API's version; distinct by api x program x version.",
+		Assumptions: []string{wellTyped, "GOROOT/api is the reference for 'introduced in'", "code quoted from the analysed file is not a recommendation"},
+	},
+	"C14": {
+		Quick:    tierCfg{Shards: 8, Checks: 150, Limit: qLimit},
+		Thorough: tierCfg{Shards: 16, Checks: 3000, Limit: tLimit},
+		Floor:    60,
+		NeedBins: true,
+		Rule: "four oracles drawn per case. boundary (45%): for each of the 7 numeric thresholds a construct of exactly known measure N in 0..40 (array/struct parameters and range operands of N bytes, N results, N-statement loop-if bodies, if-else chains with N else keywords, code comments of N runes) analysed with threshold N-2..N+2; must fire iff the documented boundary says so (size/min: N >= t; maximum: N > t) and at most once. " +
+			"monotonic (35%): generated programs analysed with two thresholds t1 <= t2; every diagnostic under the relaxed threshold must exist under the strict one. " +
+			"sizes (8%): 3-12 random struct types (22 field types incl. padding, nesting, zero-size) - the '(N bytes)' of hugeParam's message equals unsafe.Sizeof printed by a compiled program. " +
+			"plumbing (12%): parameter values given as -@checker.param flags to go-critic, gocritic or the analyzer on a generated workspace equal the in-process run with the registry default overridden. " +
+			"Non-trivial = threshold within 1 of the measure, a monotonicity pair with diagnostics, a multi-field size comparison, a plumbing run with parameters; distinct by case.",
+		Assumptions: []string{wellTyped, "the Go compiler's unsafe.Sizeof is the reference for sizes", "measure of an if-else chain = number of else keywords (the documented example, two of them, triggers at the default 2)", "length of a comment = runes of go/ast CommentGroup.Text() (markers stripped, trailing newline included)"},
+	},
 }
